@@ -101,6 +101,15 @@ func (m *incomingStreamsMap[T]) AcceptStream(ctx context.Context) (T, error) {
 		m.mutex.Lock()
 	}
 	m.nextStreamToAccept += 4
+	// Another goroutine might be waiting in AcceptStream as well. newStreamChan holds a single
+	// wake-up: if several streams were opened before any of the waiting goroutines got to read
+	// from it, the next stream is there, but nobody would be woken for it.
+	if _, ok := m.streams[m.nextStreamToAccept]; ok {
+		select {
+		case m.newStreamChan <- struct{}{}:
+		default:
+		}
+	}
 	// If this stream was completed before being accepted, we can delete it now.
 	if entry.shouldDelete {
 		if err := m.deleteStream(id); err != nil {
